@@ -780,6 +780,7 @@ class QubitCircuit:
             "SQRTSWAP",
             "BERKELEY",
             "SWAPalpha",
+            "SWAPALPHA",
         ]
         num_measurements = len(
             list(filter(lambda x: isinstance(x, Measurement), self.gates))
